@@ -316,6 +316,11 @@ def reverseTraverseStartingAt (cmp : K → K → Ordering) (t : Tree K V) (key :
 
 end Tree
 
+/-- the two compare functions used by the correspondence run: `plain` = integer order, `div10` = order of `k / 10`
+    (Go's truncating division), under which ten distinguishable keys compare equal -/
+def cmpOf (div10 : Bool) (a b : Int) : Ordering :=
+  if div10 then compare (a.tdiv 10) (b.tdiv 10) else compare a b
+
 /-! ### histories and the specification (a list sorted by key, equal keys in insertion order) -/
 
 inductive Op (K V : Type) where
